@@ -1553,6 +1553,10 @@ func (ctx Ctx) defineStmt(s *ast.AssignStmt) coq.Binding {
 	for _, ident := range idents {
 		names = append(names, ident.Name)
 	}
+	if len(names) > 4 {
+		// the tuple-destructuring notation exists for up to 4 names only
+		ctx.unsupported(s, "destructuring more than 4 return values")
+	}
 	// NOTE: this checks whether the identifier being defined is supposed to be
 	// 	pointer wrapped, so to work correctly the caller must set this identInfo
 	// 	before processing the defining expression.
@@ -1751,6 +1755,9 @@ func (ctx Ctx) multipleAssignStmt(s *ast.AssignStmt) coq.Binding {
 		ctx.unsupported(s, "%v multiple assignment", s.Tok)
 	}
 
+	if len(s.Lhs) > 4 {
+		ctx.unsupported(s, "destructuring more than 4 return values")
+	}
 	names := make([]string, len(s.Lhs))
 	for i := 0; i < len(names); i += 1 {
 		names[i] = fmt.Sprintf("%d_ret", i)
